@@ -16,3 +16,10 @@ PROP = {
         "the parser model used by C15_readback is Sml/StrictParser.v; value items are parsed by the same code in strict and non-strict mode (tie: the C13 correspondence on ParseStrict, and this harness reads every rendered leaf back with sml.Parse)",
     ],
 }
+
+
+MANIFEST = {
+    "text": "Coq theorem C15_identical: for every item tree (every type, empty/one/many elements, nesting, empty-item children) Item.ToSML's model equals the default sml encoder's model byte for byte — no assumption about strconv needed; C15_readback: every integer, boolean, binary (and, under two strconv laws, float) element rendered by either parses back to the same value (decimal and 0xHH print/parse round trips proved for all integers in range). Tied by a differential: ToSML() and sml.Encode() on constructor-built and decoder-built trees must both equal the model text.",
+    "note": 'Float readback carries the FormatFloat/ParseFloat laws as premises (validated by the harness on every generated value).',
+    "technique": 'Rocq/Coq proof (two independent renderer models + induction with generalised indentation) + extracted-model differential',
+}
